@@ -2,7 +2,7 @@ SPECIFICATION TSpec
 CONSTANTS
   Threads = {1, 2}
   Dev = {"gateAnyOrder"}
-  LenientGenDrop = FALSE
+  LenientGenDrop = TRUE
   LenientOrder = FALSE
 CONSTRAINT HighWater
 POSTCONDITION Post
